@@ -97,6 +97,11 @@ def pool_dwarf():
             P.append(("%s,%s" % (h, q("[entry ?(parent) parent* ?root] elem ?%d" % (k * 7))), "die"))
         P.append(("%s,%s" % (h, q("[unit root] elem ?0")), "die"))
         P.append(("%s,%s" % (h, q("[entry ?(parent) parent] relem ?0")), "die"))
+        # ... and as the `parent` of DIEs that sit at the top of imported partial units (the step that leaves the import)
+        for k in range(6):
+            P.append(("%s,%s" % (h, q("[entry ?(raw parent ?TAG_partial_unit) parent] elem ?%d" % (k * 3))), "die"))
+        P.append(("%s,%s" % (h, q("[entry ?(raw parent ?TAG_partial_unit) parent] relem ?0")), "die"))
+        P.append(("%s,%s" % (h, q("[entry ?(raw parent ?TAG_partial_unit) parent parent* ?root] relem ?1")), "die"))
     d2 = "v:nt"
     P.append((d2, "dwarf"))
     for k in range(3):
